@@ -246,7 +246,7 @@ func (g *gen) anyLiveCp() bool {
 	return false
 }
 
-// random: one case of up to maxOps ops.  safeRevert: while a checkpoint is alive, overwrites never keep the length of the
+// random: one case of up to maxOps ops.  safeRevert (kept from the time before the lastCheckpoint fix; both modes must pass now): while a checkpoint is alive, overwrites never keep the length of the
 // current value (so that no value is swapped in place behind a checkpoint); the other revert paths stay fully exercised.
 func (g *gen) random(maxOps int, safeRevert bool) {
 	r := g.r
